@@ -291,6 +291,12 @@ func (b *Block) readFrom(r io.Reader) error {
 	if b.method == rawMethod && b.compressedSize != b.rawSize {
 		return fmt.Errorf("cram: compressed (%d) != raw (%d) size for raw method", b.compressedSize, b.rawSize)
 	}
+	if er.err != nil {
+		return er.err
+	}
+	if b.compressedSize < 0 || b.rawSize < 0 {
+		return fmt.Errorf("cram: invalid block size: compressed %d raw %d", b.compressedSize, b.rawSize)
+	}
 	// The spec says T[] is {itf8, element...}.
 	// This is not true for byte[] according to
 	// the EOF block.
@@ -322,7 +328,13 @@ func (b *Block) Value() (interface{}, error) {
 		if err != nil {
 			return nil, err
 		}
+		if len(blockData) < 4 {
+			return nil, fmt.Errorf("cram: file header block too short: %d bytes", len(blockData))
+		}
 		end := binary.LittleEndian.Uint32(blockData[:4])
+		if uint64(end) > uint64(len(blockData)-4) {
+			return nil, fmt.Errorf("cram: file header text length %d exceeds block data", end)
+		}
 		err = h.UnmarshalText(blockData[4 : 4+end])
 		if err != nil {
 			return nil, err
@@ -353,7 +365,7 @@ func (b *Block) Value() (interface{}, error) {
 func (b *Block) expandBlockdata() ([]byte, error) {
 	switch b.method {
 	default:
-		panic(fmt.Sprintf("cram: unknown method: %v", b.method))
+		return nil, fmt.Errorf("cram: unknown method: %v", b.method)
 	case rawMethod:
 		return b.blockData, nil
 	case gzipMethod:
@@ -461,6 +473,10 @@ func (r *errorReader) itf8slice() []int32 {
 		return nil
 	}
 	if n == 0 {
+		return nil
+	}
+	if n < 0 {
+		r.err = fmt.Errorf("cram: invalid array length: %d", n)
 		return nil
 	}
 	s := make([]int32, n)
